@@ -915,71 +915,152 @@ def truth(t: Term, env) -> bool:
 
 def r09k(ctx):
     """Which flatten / squeeze "includes the channels" is decided by the AXIS, however it is
-    spelled: the tests of add_features_calculator (the width is multiplied by the spatial size)
-    and of associate_input_features (the consumer's width is set by the flatten node) are
-    evaluated on concrete ranks and axis arguments; the channel case must be taken exactly when
-    the normalised axis (dim mod rank) is 1 -- start_dim=-3 of a rank-4 tensor is, dim=3 (the
-    last axis, ``rank - dim == 1``) is not."""
+    spelled.  add_features_calculator (the width is multiplied by the spatial size) and
+    associate_input_features (the consumer's width is set by the reshaping node) are both
+    **interpreted** (finite interpreter; try_get_args of graph/utils.py interpreted on the real
+    args / kwargs of the node) on the graph  input -> conv -> flatten|squeeze(dim) -> layer  for
+    ranks 3 and 4 and every non-batch axis in both spellings; the channel case must be taken
+    exactly when the normalised axis (dim mod rank) is 1: start_dim=-3 of a rank-4 tensor is
+    the features axis, dim=3 (the last one, ``rank - dim == 1``) is not."""
+    from ..mini import Mini, Obj, Raised, Token, Unsupported
     repo = ctx.repo
-    n = 0
+    ann = repo.modules['plinio.graph.annotation']
+    fdefs = {n.name: n for n in ann.tree.body if isinstance(n, ast.FunctionDef)}
+    um = repo.modules.get('plinio.graph.utils')
+    tga = next((n for n in um.tree.body if isinstance(n, ast.FunctionDef) and
+                n.name == 'try_get_args'), None) if um is not None else None
+    if tga is None:
+        raise AnalysisError('R09k: try_get_args not found')
+
+    class _A(Mini):
+        def expr(self, e, env):
+            if isinstance(e, ast.Attribute):
+                o = self.expr(e.value, env)
+                if isinstance(o, Obj) and e.attr in o.attrs:
+                    return o.attrs[e.attr]
+                return ('boundmethod', o, e.attr)
+            return super().expr(e, env)
+
+        def builtin(self, name, args, kwargs, node):
+            if name == 'hasattr':
+                return isinstance(args[0], Obj) and args[1] in args[0].attrs
+            if name == 'int' and len(args) == 1 and isinstance(args[0], (int, float)):
+                return int(args[0])
+            if name == 'min' and all(isinstance(a, (int, float)) for a in args):
+                return min(args)
+            return super().builtin(name, args, kwargs, node)
+
+        def method(self, o, name, args, kwargs, node):
+            if isinstance(o, dict):
+                if name == 'get':
+                    return o.get(args[0], args[1] if len(args) > 1 else None)
+                if name == 'keys':
+                    return list(o.keys())
+            return super().method(o, name, args, kwargs, node)
+
+    def world(kind, shape, dim):
+        def mk(name, op, flags, shp, ins):
+            o = Obj('Node')
+            tm = Obj('TensorMetadata')
+            tm.attrs['shape'] = shp
+            meta = {k: False for k in ('non_tensor_op', 'features_concatenate', 'flatten',
+                                       'squeeze', 'unsqueeze', 'features_defining',
+                                       'features_propagating', 'shared_input_features',
+                                       'untouchable', 'zero_or_one_input')}
+            meta.update(flags)
+            meta['tensor_meta'] = tm
+            o.attrs.update({'name': name, 'op': op, 'target': name, 'meta': meta,
+                            'all_input_nodes': list(ins), 'args': tuple(ins), 'kwargs': {},
+                            'users': {}})
+            for i in ins:
+                i.attrs['users'][o] = None
+            return o
+        x = mk('x', 'placeholder', {'features_defining': True}, shape, [])
+        c = mk('c', 'call_module', {'features_defining': True}, shape, [x])
+        r = len(shape)
+        d = dim % r
+        oshape = shape[:d] + (shape[d] * (1 if kind == 'squeeze' else 1),) + shape[d + 1:]
+        F = mk('F', 'call_function', {kind: True}, oshape, [c])
+        F.attrs['args'] = (c, dim)
+        L = mk('L', 'call_module', {'features_defining': True}, oshape, [F])
+        return [x, c, F, L]
+    marks = {}
+    glob = {'math': None}
+
+    def stub(tag):
+        def f(*a, **k):
+            o = Obj(tag)
+            o.attrs['args'] = a
+            return o
+        return Token('cls:' + tag, f)
+    import math as _math
+    mathp = Obj('pkg')
+    mathp.attrs['prod'] = lambda xs: _math.prod(xs)
+    n_worlds = 0
+    results = {}
     for fname in ('add_features_calculator', 'associate_input_features'):
-        fn = repo.fn(fname)
-        sites = {}
-        for p in paths(repo, fn):
-            for e in p.events:
-                if fname == 'add_features_calculator':
-                    if e.kind != 'call' or not (callee(e.data[0]) or '').endswith(
-                            'FlattenFeaturesCalculator'):
-                        continue
-                elif not (e.kind == 'setitem' and e.data[1] == ('const', 'input_features_set_by')):
-                    continue
-                gs = path_guards(p, e)
-                key = next(((a[2][1], a[1][1]) for a, v in gs
-                            if v and a[0] == 'sub' and a[2][0] == 'const' and a[1][0] == 'attr' and
-                            a[1][2] == 'meta' and a[2][1] in ('flatten', 'squeeze')), None)
-                if key is None:
-                    continue
-                if fname == 'associate_input_features' and e.data[2] != key[1]:
-                    continue        # the other arm: inherits from the node before
-                from ..util import resolve_namedtuples
-                conds = [(resolve_namedtuples(repo, a), v) for a, v in gs if mentions(
-                    a, lambda x: x[0] == 'call' and (callee(x) or '').endswith('try_get_args'))]
-                sites.setdefault(key[0], (conds, e.node))
-        ctx.floor('R09k', f'channel cases of {fname}', len(sites), 2)
-        for key, (conds, node) in sorted(sites.items()):
-            n += 1
+        fd = fdefs.get(fname)
+        if fd is None:
+            raise AnalysisError(f'R09k: {fname} not found')
+        for kind in ('flatten', 'squeeze'):
             bad = None
-            argname = 'start_dim' if key == 'flatten' else 'dim'
             for shape in ((2, 3, 5, 7), (2, 3, 5)):
                 r = len(shape)
-                for d in [x for x in range(-r + 1, r) if x != 0]:
-                    env = {}
-                    for a, _v in conds:
-                        for x in subterms(a):
-                            if x[0] == 'attr' and x[2] == 'shape':
-                                env[x] = shape
-                            if x[0] == 'call' and (callee(x) or '').endswith('try_get_args') and \
-                                    len(x[2]) >= 4 and x[2][3][0] == 'const':
-                                env[x] = d if x[2][3][1] == argname else (
-                                    -1 if x[2][3][1] == 'end_dim' else None)
+                for d in [v for v in range(-r + 1, r) if v != 0]:
+                    nodes = world(kind, shape, d)
+                    x, c, F, L = nodes
+                    graph = Obj('Graph')
+                    graph.attrs['nodes'] = nodes
+                    mod = Obj('GraphModule')
+                    mod.attrs['graph'] = graph
+                    g = {
+                        'get_graph_inputs': Token('get_graph_inputs', lambda _g, _x=x: [_x]),
+                        'all_output_nodes': Token('all_output_nodes',
+                                                  lambda n_: list(n_.attrs['users'].keys())),
+                        'math': mathp,
+                        'FlattenFeaturesCalculator': stub('Flatten'),
+                        'ConstFeaturesCalculator': stub('Const'),
+                        'ConcatFeaturesCalculator': stub('Concat'),
+                        'ModAttrFeaturesCalculator': stub('ModAttr'),
+                        'cast': Token('cast', lambda _t, v: v),
+                    }
+                    g['try_get_args'] = Token('try_get_args', lambda *a, _g=g: _A(_g).call_function(
+                        tga, list(a)))
+                    for nm, st in fdefs.items():
+                        if nm not in g and st is not fd:
+                            g[nm] = Token('fn:' + nm, lambda *a, _n=st, _g=g, **k: _A(_g).call_function(
+                                _n, list(a), k))
                     try:
-                        taken = all(truth(a, env) == v for a, v in conds)
-                    except (_NoValue, TypeError, IndexError, KeyError) as ex:
-                        raise AnalysisError(f'R09k: axis test of the {key} case of {fname} not '
-                                            f'evaluable: {ex}')
+                        if fname == 'add_features_calculator':
+                            _A(g).call_function(fd, [mod, []])
+                            fc = F.attrs['meta'].get('features_calculator')
+                            taken = isinstance(fc, Obj) and fc.cls_name == 'Flatten'
+                        else:
+                            _A(g).call_function(fd, [mod])
+                            taken = L.attrs['meta'].get('input_features_set_by') is F
+                    except Raised as ex:
+                        # the function rejects this world itself (assertion / ValueError)
+                        if 'Assertion' in str(ex) or 'ValueError' in str(ex):
+                            continue
+                        raise AnalysisError(f'R09k: {fname} raised {ex} on {kind}({d}) of rank {r}')
+                    except Unsupported as ex:
+                        raise AnalysisError(f'R09k: {fname} is outside the interpreted subset: {ex}')
+                    n_worlds += 1
                     want = d % r == 1
                     if taken != want and bad is None:
                         bad = (shape, d, taken)
-            ctx.ob('R09k', f'{fname}: {key} includes the channels iff the axis is 1', bad is None,
+            argname = 'start_dim' if kind == 'flatten' else 'dim'
+            ctx.ob('R09k', f'{fname}: {kind} includes the channels iff the axis is 1', bad is None,
                    'decided by the normalised axis on ranks 3 and 4, every non-batch axis, both '
-                   'spellings' if bad is None else
-                   f'for a rank-{len(bad[0])} input and {key}({argname}={bad[1]}) the channel case '
+                   'spellings (interpreted)' if bad is None else
+                   f'for a rank-{len(bad[0])} input and {kind}({argname}={bad[1]}) the channel case '
                    f'is {"taken" if bad[2] else "not taken"}, but axis {bad[1] % len(bad[0])} '
                    f'{"is" if bad[1] % len(bad[0]) == 1 else "is not"} the features axis: the '
                    f'consumer reports a width that is not the one of the tensor feeding it '
                    f'(features instead of features x spatial size, or the reverse) and export '
-                   f'fails with a mask / weight shape mismatch', where(fn, node))
-    return n
+                   f'fails with a mask / weight shape mismatch', where(repo.fn(fname)))
+    ctx.floor('R09k', 'interpreted axis worlds', n_worlds, 30)
+    return n_worlds
 
 
 def r09h(ctx, rule='R09h'):
